@@ -164,6 +164,10 @@ func storedDirectives(t *rapid.T, h *Hist, label string) (cc []string, life int6
 
 func requestDirectives(t *rapid.T, h *Hist, label string, forceOIC bool) string {
 	var cc []string
+	if Pct(t, label+"-ext", 8) {
+		// an extension whose quoted argument contains an escaped quote and a comma
+		cc = append(cc, Pick(t, label+"-extv", `ext="a\"b"`, `ext="a\",b"`, `ext="x, no-cache"`))
+	}
 	if forceOIC {
 		cc = append(cc, "only-if-cached")
 	}
@@ -253,6 +257,16 @@ func c02like(t *rapid.T, prop string, forceOIC bool) *world.Scenario {
 		rq := &world.Req{Method: "GET", URL: u}
 		if v := requestDirectives(t, h, lbl+"-rq", forceOIC && i == n-1); v != "" {
 			rq.Header = append(rq.Header, H("Cache-Control", v))
+		}
+		switch Weighted(t, lbl+"-extra", 84, 8, 8) {
+		case 1:
+			// the client's own conditional request (its copy has another entity tag)
+			rq.Header = append(rq.Header, H("If-None-Match", Pick(t, lbl+"-cinm", `"client-copy"`, `"v999"`)))
+		case 2:
+			// a Range field that is present but empty is no range request
+			if forceOIC {
+				rq.Header = append(rq.Header, H("Range", ""))
+			}
 		}
 		// an unconditional miss yields a new storable-or-not reply
 		ncc, _ := storedDirectives(t, h, lbl+"-st")
